@@ -4,7 +4,10 @@ constraints (Cola/CompoundCsModel.v, proofs in Cola/CompoundCs.v, statements in 
 tie C: the extracted model generator is compared exactly (multisets of (left,right,gap,equality), auxiliary variable data)
 with generateVariables/generateSeparationConstraints of the compiled library on random dyadic parameters;
 V: the extracted verified checker cc_holdsb evaluates every compound constraint on the result of
-ConstrainedFDLayout::makeFeasible()+run() and ConstrainedMajorizationLayout::run() on random graphs."""
+ConstrainedFDLayout::makeFeasible()+run() and ConstrainedMajorizationLayout::run() on random graphs, plus the family
+'rollback' (gen_rollback_case): overlap avoidance on and groups of overlapping rectangles tied together by user equalities, so that
+makeFeasible() has to reject and roll back non-overlap alternatives; there every constraint held on the initial positions and must
+still hold afterwards."""
 import os, json, math
 from fractions import Fraction
 from vlib import common as C
@@ -305,6 +308,77 @@ def gen_layout_case(rng, idx):
     return case
 
 
+def gen_rollback_case(rng, idx):
+    """family 'rollback' (makeFeasible's priority/rollback search, colafd.cpp:730-853): overlap avoidance ON and groups of mutually
+    overlapping rectangles that user equalities tie together in BOTH dimensions (FixedRelativeConstraint; x- and y-alignments with
+    offsets; equality separations; mixtures), so that all four non-overlap alternatives of a tied pair are rejected and rolled
+    back, or tied in ONE dimension only (some alternatives rejected, a later one accepted).  Every user constraint holds on the
+    initial positions and the user system is a forest in each dimension (no equality on a cycle), so nothing in the domain of the
+    known finding makefeasible_rejects_satisfiable_equality is generated on purpose; the other rectangles are free or carry
+    satisfiable inequalities."""
+    n = rng.range(3, 8)
+    rects = [None] * n
+    nodes = rng.shuffle(list(range(n)))
+    ccs = []
+    tied = []
+    ngroups = 1 if n < 5 else rng.range(1, 2)
+    for g in range(ngroups):
+        k = rng.range(2, 3) if len(nodes) >= 4 else 2
+        if len(nodes) < k + (0 if g else 1):
+            break
+        grp, nodes = sorted(nodes[:k]), nodes[k:]
+        bx, by = rng.range(20, 180) * 16, rng.range(20, 180) * 16
+        offs = []
+        for j, v in enumerate(grp):
+            w, h = rng.range(4, 12) * 32, rng.range(4, 12) * 32
+            while True:
+                dx, dy = (0, 0) if j == 0 else (rng.range(-5, 5) * 16, rng.range(-5, 5) * 16)
+                if j == 0 or dx != dy:
+                    break
+            offs.append((dx, dy))
+            rects[v] = [bx + dx - w // 2, bx + dx + w // 2, by + dy - h // 2, by + dy + h // 2]
+        how = rng.choice(['fixedrel', 'fixedrel', 'align-align', 'sep-sep', 'align-sep', 'one-dim'])
+        dims = [0, 1]
+        if how == 'one-dim':
+            dims = [rng.below(2)]
+        for d in dims:
+            kind = {'fixedrel': 'F', 'align-align': 'A', 'sep-sep': 'S', 'align-sep': 'AS'[d], 'one-dim': rng.choice('AS')}[how]
+            if kind == 'F':
+                if d == 0:
+                    ccs.append({'code': 7, 'fixedpos': False, 'ids': list(grp)})
+            elif kind == 'A':
+                ccs.append({'code': 3, 'd': d, 'pos': (bx, by)[d], 'fixed': False, 'sh': [[v, offs[j][d]] for j, v in enumerate(grp)]})
+            else:
+                for j in range(1, len(grp)):
+                    a = rng.below(j)                                  # a tree of equalities
+                    ccs.append({'code': 1, 'd': d, 'l': grp[a], 'r': grp[j], 'g': offs[j][d] - offs[a][d], 'e': True})
+        tied.append({'nodes': grp, 'how': how})
+    free = nodes
+    for v in free:
+        w, h = rng.range(2, 12) * 32, rng.range(2, 12) * 32
+        if rng.chance(1, 3) and tied:                                   # on top of a tied group
+            t = rects[rng.choice(rng.choice(tied)['nodes'])]
+            cx, cy = (t[0] + t[1]) // 2 + rng.range(-4, 4) * 16, (t[2] + t[3]) // 2 + rng.range(-4, 4) * 16
+        else:
+            cx, cy = rng.range(0, 200) * 16, rng.range(0, 200) * 16
+        rects[v] = [cx - w // 2, cx + w // 2, cy - h // 2, cy + h // 2]
+    # satisfiable inequalities among the free rectangles (index order = a witness order), holding initially or not
+    for _ in range(rng.below(3)):
+        if len(free) >= 2:
+            a, b = rng.choice(free), rng.choice(free)
+            if a != b:
+                a, b = min(a, b), max(a, b)
+                ccs.append({'code': 1, 'd': rng.below(2), 'l': a, 'r': b, 'g': rng.range(0, 40) * 16, 'e': False})
+    ccs = rng.shuffle(ccs)
+    edges = []
+    for v in range(1, n):
+        if rng.chance(3, 5):
+            edges.append([rng.below(v), v])
+    mode = [2, 2, 2, 0][idx % 4]
+    return {'n': n, 'rects': rects, 'ccs': ccs, 'edges': edges, 'ideal': rng.choice([40, 60, 100]) * 16, 'mode': mode, 'overlap': 1,
+            'neighbour': 0, 'stream': 'sat', 'kind': 'rollback', 'tied': tied}
+
+
 def feasible(nvars, cs):
     """exact feasibility of a system of separation constraints x_l + g <= x_r (== when eq): no positive cycle
     (Bellman-Ford longest paths over Fractions; the gaps are dyadic so Fraction(float) is exact)"""
@@ -341,6 +415,34 @@ def has_equality_cycle(nvars, cs):
             if a == b:
                 return True
             par[a] = b
+    return False
+
+
+def equality_on_cycle(nvars, cs):
+    """does some equality constraint lie on an undirected cycle of the constraint multigraph (= it is not a bridge; parallel
+    constraints between the same two variables form a cycle)?  IncSolver::satisfy flags a constraint unsatisfiable only when both
+    of its variables are already in one block (solve_VPSC.cpp:262-300), i.e. joined by other active constraints: the flagged
+    constraint closes an undirected cycle.  For a jointly satisfiable system such a cycle must contain an equality (a cycle of
+    tight inequalities plus a violated inequality is a positive cycle).  Without such a cycle makeFeasible() never rolls back a
+    user constraint of a satisfiable system."""
+    es = [(l, r, bool(e)) for (l, r, g, e) in cs if l < nvars and r < nvars]
+    for k, (l, r, e) in enumerate(es):
+        if not e:
+            continue
+        if l == r:
+            return True
+        # is r reachable from l without edge k?
+        seen, todo = {l}, [l]
+        while todo:
+            a = todo.pop()
+            for k2, (x, y, _) in enumerate(es):
+                if k2 == k:
+                    continue
+                b = y if x == a else (x if y == a else None)
+                if b is not None and b not in seen:
+                    seen.add(b); todo.append(b)
+        if r in seen:
+            return True
     return False
 
 
@@ -461,8 +563,10 @@ def checker_line(case, R):
     return '%s | %d %d | %d %s' % (case_line(case), tol.numerator, tol.denominator, GRID, ' '.join(str(c) for c in cs))
 
 
-def layouts(res, rng, ncases, cpp, ml, corpus=True):
+def layouts(res, rng, ncases, cpp, ml, corpus=True, nroll=0):
     cases = [gen_layout_case(rng.fork(), i) for i in range(ncases)]
+    rr = rng.fork()
+    cases += [gen_rollback_case(rr.fork(), i) for i in range(nroll)]
     if corpus:
         for f in sorted(os.listdir(os.path.join(C.VERIF, 'corpus'))):
             if f.startswith('c07_layout_') and f.endswith('.json'):
@@ -490,6 +594,7 @@ def layouts(res, rng, ncases, cpp, ml, corpus=True):
                     c['feasible'][d] = feasible(c['n'] + len(g[1]), g[3])
                     c.setdefault('eqcycle', [None, None])[d] = has_equality_cycle(c['n'] + len(g[1]), g[3])
                     c.setdefault('haseq', [None, None])[d] = any(e for (_, _, _, e) in g[3])
+                    c.setdefault('eqoncycle', [None, None])[d] = equality_on_cycle(c['n'] + len(g[1]), g[3])
     chk_lines, chk_idx, parsed = [], [], []
     for i, c in enumerate(cases):
         r = parse_layout(out[i], c['n'])
@@ -505,6 +610,10 @@ def layouts(res, rng, ncases, cpp, ml, corpus=True):
                 # classifier for the known non-termination of makeFeasible(): overlap avoidance on and the loop is in makeFeasible
                 if phase == 'makeFeasible' and c['overlap'] == 1 and c['mode'] in (0, 2):
                     v['fingerprint'] = 'makefeasible_hang_unsat_nonoverlap'
+                # classifier: the majorization divergence (coordinates run away, the stress never converges) shows as a run() that
+                # does not return, in exactly the domain of that finding
+                if phase == 'majorization-run' and majorization_divergence_domain(c):
+                    v['fingerprint'] = 'majorization_fixedrelative_overlap_divergence'
                 viols.append(v)
                 continue
             viols.append({'what': 'unparsable harness output', 'case': c, 'output': out[i][:300]}); continue
@@ -552,12 +661,30 @@ def layouts(res, rng, ncases, cpp, ml, corpus=True):
         chk_lines.append(checker_line(c, r['R'])); chk_idx.append(i)
     if chk_lines:
         rc2, out2, err2 = run_lines(ml, ['check'], chk_lines)
-        if rc2 != 0 or len(out2) < len(chk_lines):
-            viols.append({'what': 'extracted checker failed to run', 'rc': rc2, 'stderr': err2[-1500:], 'machinery': True})
+        # the same verified checker on the INITIAL centres (which constraints held before the call)
+        init_lines = [checker_line(cases[i], [[(q[0] + q[1]) / 32.0, (q[2] + q[3]) / 32.0] for q in cases[i]['rects']]) for i in chk_idx]
+        rc3, out3, err3 = run_lines(ml, ['check'], init_lines)
+        if rc2 != 0 or len(out2) < len(chk_lines) or rc3 != 0 or len(out3) < len(chk_lines):
+            viols.append({'what': 'extracted checker failed to run', 'rc': rc2, 'stderr': (err2 + err3)[-1500:], 'machinery': True})
         else:
             for k, i in enumerate(chk_idx):
                 c, r = cases[i], parsed[i]
                 flags = out2[k].split()
+                before = out3[k].split()
+                if c.get('kind') == 'rollback':
+                    stats['rollback_cases'] = stats.get('rollback_cases', 0) + 1
+                    stats.setdefault('rollback_by_tie', {})
+                    stuck = False
+                    for t in c['tied']:
+                        stats['rollback_by_tie'][t['how']] = stats['rollback_by_tie'].get(t['how'], 0) + 1
+                        for a in t['nodes']:
+                            for b in t['nodes']:
+                                if a < b:
+                                    qa, qb = r['R'][a], r['R'][b]
+                                    if abs(qa[0] - qb[0]) < (qa[2] + qb[2]) / 2 - 1e-3 and abs(qa[1] - qb[1]) < (qa[3] + qb[3]) / 2 - 1e-3:
+                                        stuck = True
+                    if stuck:      # a tied pair still overlaps: all four non-overlap alternatives were rejected and rolled back
+                        stats['rollback_all_alternatives_rejected'] = stats.get('rollback_all_alternatives_rejected', 0) + 1
                 for j, cc in enumerate(c['ccs']):
                     tname = CODES[cc['code']]
                     for d in (0, 1):
@@ -572,8 +699,15 @@ def layouts(res, rng, ncases, cpp, ml, corpus=True):
                             continue
                         stats['cc_evaluated'] += 1
                         stats['by_type'][tname] = stats['by_type'].get(tname, 0) + 1
+                        held = (before[j][d] == '1')
+                        if c['mode'] == 2 and held:
+                            stats['cc_held_before_makefeasible'] = stats.get('cc_held_before_makefeasible', 0) + 1
                         if flags[j][d] != '1':
-                            v = {'what': 'compound constraint violated by more than 1e-4 in the final layout and not reported unsatisfiable',
+                            v = {'what': ('compound constraint that HELD on the initial positions (jointly satisfiable system) is violated by more than 1e-4 '
+                                          'after makeFeasible(), nothing reported' if (c['mode'] == 2 and held) else
+                                          'compound constraint violated by more than 1e-4 in the final layout and not reported unsatisfiable'),
+                                 'held_on_initial_positions': held,
+                                 'initial_centres': [[(q[0] + q[1]) / 32.0, (q[2] + q[3]) / 32.0] for q in c['rects']],
                                  'constraint_index': j, 'constraint': cc, 'type': tname, 'dim': 'XY'[d],
                                  'user_system_jointly_satisfiable_in_dim': c['feasible'][d],
                                  'final_centres': [q[:2] for q in r['R']], 'reported_unsat_X': r['UX'], 'reported_unsat_Y': r['UY'],
@@ -595,7 +729,12 @@ def layouts(res, rng, ncases, cpp, ml, corpus=True):
                             #             (solve_VPSC.cpp:259-262) and makeFeasible (colafd.cpp:791-803) blames the constraint it has just added;
                             #  :nocycle - IncSolver cannot satisfy a new equality whose slack is positive inside one block when the path to
                             #             relax runs against the constraint directions (splitBetween returns nullptr -> flagged)
-                            if c['mode'] == 2 and c['feasible'][d] is True and c.get('haseq', [None, None])[d]:
+                            # Precise predicate (see equality_on_cycle): IncSolver flags a constraint only if both its variables are already in
+                            # one block, i.e. it closes an undirected cycle of the user constraint graph of that dimension, and in a
+                            # satisfiable system such a cycle contains an equality.  A violated constraint of a system WITHOUT an equality
+                            # on a cycle (e.g. a forest of equalities) is never this finding.
+                            v['equality_on_cycle_in_dim'] = c.get('eqoncycle', [None, None])[d]
+                            if c['mode'] == 2 and c['feasible'][d] is True and c.get('eqoncycle', [None, None])[d]:
                                 v['fingerprint'] = 'makefeasible_rejects_satisfiable_equality:' + \
                                                    ('cycle' if c.get('eqcycle', [None, None])[d] else 'nocycle')
                             viols.append(v)
@@ -623,13 +762,17 @@ def run(tier):
         'the control-flow trace of ConstrainedFDLayout::run (run_trace) is a hand model of colafd.cpp:286-380, 1063-1161: no topology addon, no preIteration callback, the convergence test does not write X/Y, at least one iteration',
         'vpsc::Rectangle borders are 0 outside makeFeasible; binary64 arithmetic is exact on the dyadic parameters of the correspondence (validated by it)',
         'V-runs: final centres are rounded to 2^-20 before the exact checker, whose tolerance is 1e-4 + 4*2^-20; makeFeasible()-only runs are checked only when the '
-        'user system is jointly satisfiable (exact Bellman-Ford oracle on the model\'s constraints) because makeFeasible has no reporting channel']
+        'user system is jointly satisfiable (exact Bellman-Ford oracle on the model\'s constraints) because makeFeasible has no reporting channel',
+        'known finding makefeasible_rejects_satisfiable_equality is matched only when an equality constraint lies on an undirected cycle of the '
+        'dimension\'s user constraint graph (necessary for IncSolver to flag anything in a satisfiable system); the rollback family generates forests of '
+        'equalities, so a violated constraint there is never classified as known']
     cpp = C.build_harness('c07_cc', ['libcola', 'libvpsc'], 'exc')
     ml = C.ocaml_build('c07model', 'C07model.v', 'c07_driver.ml', 'c07_model.ml')
     ncorr = 1500 if tier == 'quick' else 12000
     nlay = 500 if tier == 'quick' else 4000
+    nroll = 300 if tier == 'quick' else 2500
     cases, diffs, hist, ntriv, samples = correspondence(res, rng.fork(), ncorr, cpp, ml)
-    lcases, viols, stats = layouts(res, rng.fork(), nlay, cpp, ml)
+    lcases, viols, stats = layouts(res, rng.fork(), nlay, cpp, ml, nroll=nroll)
     # ---- decide
     real = 0
     for v in viols:
@@ -692,7 +835,9 @@ META = {
                 'if a projection satisfies the generated constraints to eps (property C01, hypothesis) every compound constraint holds to 3*eps; in the '
                 'control-flow model of ConstrainedFDLayout::run the last write to X and to Y is a projection output and X constraints do not read Y. '
                 'PARTIAL: makeFeasible()\'s search, the solver delivering the hypothesis, the reporting of dropped constraints and '
-                'ConstrainedMajorizationLayout are only validated on real runs by the extracted verified checker (cc_holdsb, proved equivalent to the meaning).',
+                'ConstrainedMajorizationLayout are only validated on real runs by the extracted verified checker (cc_holdsb, proved equivalent to the meaning), '
+                'including a directed family for makeFeasible\'s rollback path (overlap avoidance + rectangles tied by user equalities in both dimensions: '
+                'constraints that held before makeFeasible() must hold after it).',
         'design_ref': 'DESIGN.md 5.7'},
     'level_note': 'Trusted: Coq kernel; hand-written model CompoundCsModel.v (tie = exact comparison of generated (left,right,gap,equality) multisets, auxiliary '
                   'variables and error kinds with the compiled code on random dyadic inputs, every run); extraction (ExtrOcamlBasic), OCaml/C++/Python drivers; '
